@@ -17,7 +17,9 @@ static MeshData makeMesh(const std::string& name) {
     if (name == "tetra") {
         m.v = {Vec3(1, 1, 1), Vec3(1, -1, -1), Vec3(-1, 1, -1), Vec3(-1, -1, 1)};
         F = {{0, 1, 2}, {0, 3, 1}, {0, 2, 3}, {1, 3, 2}};
-    } else if (name == "obtuse") {       // faces with obtuse angles and a sliver
+    } else if (name == "obtuse" || name == "obtuse_r1" || name == "obtuse_r2") {
+        // faces with obtuse angles and a sliver; _r1/_r2: the same mesh with every face's vertex list rotated cyclically by one/two
+        // places (the per-face closest-point routine is not symmetric in the vertex order: its regions are numbered from vertex 0)
         m.v = {Vec3(0, 0, 0), Vec3(3, 0, 0), Vec3(-1, 1, 0), Vec3(0.5, 0.25, 1)};
         F = {{0, 1, 2}, {0, 3, 1}, {0, 2, 3}, {1, 3, 2}};
     } else if (name == "octa") {
@@ -32,7 +34,8 @@ static MeshData makeMesh(const std::string& name) {
     for (auto& t : F) {
         Vec3 n = (m.v[t[1]] - m.v[t[0]]) % (m.v[t[2]] - m.v[t[0]]);
         if (~n * (m.v[t[0]] - ctr) < 0) std::swap(t[1], t[2]);
-        for (int k : t) m.f.push_back(k);
+        int rot = name.size() > 3 && name.substr(name.size() - 3) == "_r1" ? 1 : (name.size() > 3 && name.substr(name.size() - 3) == "_r2" ? 2 : 0);
+        for (int j = 0; j < 3; ++j) m.f.push_back(t[(j + rot) % 3]);
     }
     return m;
 }
@@ -124,8 +127,15 @@ int main(int argc, char** argv) {
             // the per-face routine (Eberly's seven regions) on one face
             int k = atoi(argOr(argc, argv, 3, "0").c_str());
             symfp::note("face", std::to_string(k));
+            // query point in a plane parallel to the face: a + u (b-a) + v (c-a) + h n. The branch structure of the routine depends
+            // only on the in-plane coordinates, so (u,v) free reaches every region and sub-branch.
+            const Vec3 &fa = mesh.getVertexPosition(mesh.getFaceVertex(k, 0)), &fb = mesh.getVertexPosition(mesh.getFaceVertex(k, 1)),
+                       &fc = mesh.getVertexPosition(mesh.getFaceVertex(k, 2));
+            Real hgt = in("hgt", 0.5, "param");
+            Vec3 pf = fa + u * (fb - fa) + v * (fc - fa) + hgt * ((fb - fa) % (fc - fa));
+            outV3("pf", pf);
             Vec2 w(-1);
-            outV3("nf", mesh.findNearestPointToFace(p, k, w)); out("nfu", w[0]); out("nfv", w[1]);
+            outV3("nf", mesh.findNearestPointToFace(pf, k, w)); out("nfu", w[0]); out("nfv", w[1]);
         } else if (query == "ray") {
             Vec3 dv = inV3("d", Vec3(-0.25, -0.375, -1), "param");
             UnitVec3 d(dv, true);      // exact rational unit vector chosen by the spec
